@@ -879,57 +879,23 @@ pub fn register_probes(env: &mut Env<VS>) {
 
 // ---------------------------------------------------------------- the shell process
 
+/// The shell process: `yash_cli`'s own `run_as_shell_process` (start-up arguments, environment
+/// configuration, input, read-eval loop, EXIT trap), reached through the `verif-hooks` feature of
+/// yash-cli with the argument vector of the case and an empty environment. The probe built-ins are
+/// registered once the start-up configuration is done, before the input is opened.
 async fn shell_main(env: &mut Env<VS>, args: Vec<String>, hook: Option<Rc<dyn Fn(&mut Env<VS>)>>) {
-    use yash_cli::startup::args::Parse;
-    let run = match yash_cli::startup::args::parse(args) {
-        Ok(Parse::Run(run)) => run,
-        Ok(_) => {
-            trace(Pid(2), "startup: help/version".into());
-            return;
+    let before_input = Box::new(move |any: &mut dyn std::any::Any| {
+        let env = any.downcast_mut::<Env<VS>>().expect("the environment of the virtual shell");
+        register_probes(env);
+        env.variables
+            .get_or_new("PATH", Scope::Global)
+            .assign("/bin", None)
+            .ok();
+        if let Some(h) = hook {
+            h(env);
         }
-        Err(e) => {
-            trace(Pid(2), format!("startup error: {e}"));
-            env.exit_status = ExitStatus::ERROR;
-            return;
-        }
-    };
-    let work = yash_cli::startup::configure_environment(env, run).await;
-    register_probes(env);
-    env.variables
-        .get_or_new("PATH", Scope::Global)
-        .assign("/bin", None)
-        .ok();
-    if let Some(h) = hook {
-        h(env);
-    }
-    let ref_env = RefCell::new(env);
-    let lexer = match yash_cli::startup::input::prepare_input(&ref_env, &work.source).await {
-        Ok(l) => l,
-        Err(e) => {
-            let mut env = ref_env.borrow_mut();
-            trace(Pid(2), format!("prepare_input error: {e}"));
-            env.exit_status = ExitStatus::NOT_FOUND;
-            return;
-        }
-    };
-    // as yash-cli does: interactive shells recover from interrupts and syntax errors
-    let is_interactive = ref_env.borrow().options.get(yash_env::option::Option::Interactive) == yash_env::option::State::On;
-    let result = if is_interactive {
-        yash_semantics::interactive_read_eval_loop(&ref_env, &mut { lexer }).await
-    } else {
-        read_eval_loop(&ref_env, &mut { lexer }).await
-    };
-    let env = ref_env.into_inner();
-    env.apply_result(result);
-    match result {
-        Continue(())
-        | Break(Divert::Continue { .. })
-        | Break(Divert::Break { .. })
-        | Break(Divert::Return(_))
-        | Break(Divert::Interrupt(_))
-        | Break(Divert::Exit(_)) => run_exit_trap(env).await,
-        Break(Divert::Abort(_)) => (),
-    }
+    });
+    yash_cli::verif::run_as_shell_process(env, args, vec![], before_input).await;
 }
 
 /// How to prepare the virtual machine before the shell starts.
